@@ -48,7 +48,8 @@ REQUIRED_THEOREMS = ['OpusProps.C11.' + n for n in (
     'set_get', 'set_get_decoder', 'set_get_multistream', 'bandwidth_reported_after_frame',
     'reject_unchanged', 'application_locked_after_first_frame', 'reject_unchanged_decoder',
     'reject_unchanged_multistream', 'reject_unchanged_ms_decoder',
-    'constants_agree', 'ctl_inv', 'encode_never_changes_settings', 'ctl_inv_decoder', 'ctl_inv_multistream', 'create_rejects', 'create_rejects_multistream',
+    'constants_agree', 'ctl_inv', 'encode_never_changes_settings', 'ctl_inv_decoder', 'ctl_inv_multistream', 'create_rejects', 'create_rejects_multistream', 'create_rejects_surround',
+    'create_rejects_projection', 'set_get_projection', 'reject_unchanged_projection',
     'frame_size_select_spec', 'honour_duration', 'honour_channels', 'honour_channels_midstream',
     'honour_bandwidth', 'lowdelay_celt_only', 'short_frames_celt_only', 'encode_keeps_inv')]
 UNPROVED = [
@@ -58,7 +59,7 @@ UNPROVED = [
     'MsInv after opus_multistream_encode: proved for creation and every ctl request; that a multistream encode call keeps the '
     'per-stream ranges, one common application and "no stream has coded a frame before the first stream" is monitored '
     'after every call by suite ctl-rand (CONTRACT(ms-*)), not proved',
-    'projection encoder/decoder creation and the surround layout tables: modelled and tied (suite ctl-create), no theorem',
+    'projection DEcoder creation arguments: modelled through the multistream decoder only',
 ]
 LEVEL_TEXT = ('proof of the modelled chain: every ctl request of encoder/decoder/multistream/projection objects as a state '
               'machine, proved against documented legal-value tables: set/get read-back, rejection-leaves-state-unchanged (also '
